@@ -20,6 +20,26 @@ def _map_arrays(x, f, counter):
         return [_map_arrays(v, f, counter) for v in x]
     if isinstance(x, dict):
         return {k: _map_arrays(v, f, counter) for k, v in x.items()}
+    try:
+        import xarray as xr
+    except Exception:  # pragma: no cover
+        return x
+    if isinstance(x, xr.DataArray):
+        # same values, dims and coordinates; the data (and the non-index coordinates) in another memory layout -
+        # what `.transpose(...)` of a grid stored the other way round gives
+        new = x.copy(data=_map_arrays(np.asarray(x.values), f, counter))
+        for cname in list(x.coords):
+            if x.coords[cname].ndim >= 2:
+                new = new.assign_coords({cname: (x.coords[cname].dims, _map_arrays(np.asarray(x.coords[cname].values), f, counter))})
+        return new
+    if isinstance(x, xr.Dataset):
+        new = x.copy()
+        for name in list(x.data_vars):
+            new[name] = (x[name].dims, _map_arrays(np.asarray(x[name].values), f, counter), dict(x[name].attrs))
+        for cname in list(x.coords):
+            if x.coords[cname].ndim >= 2:
+                new = new.assign_coords({cname: (x.coords[cname].dims, _map_arrays(np.asarray(x.coords[cname].values), f, counter))})
+        return new
     return x
 
 
